@@ -471,6 +471,12 @@ SEED_EXPECT.update({
     'R3-C20a': ['C05', 'C13', 'C20'],
 })
 
+# round 4 (10 refactorings with one semantic slip each; 10 caught)
+SEED_EXPECT.update({
+    'R4-C04a': ['C04'], 'R4-C06a': ['C06'], 'R4-C09a': ['C09'], 'R4-C10a': ['C01', 'C06', 'C10'], 'R4-C13a': ['C06', 'C10'],
+    'R4-C14a': ['C13', 'C14'], 'R4-C15a': ['C15'], 'R4-C17a': ['C17'], 'R4-C18a': ['C18'], 'R4-C19a': ['C19'],
+})
+
 
 def apply_benign(bid):
     def edit(root):
@@ -485,7 +491,11 @@ def apply_benign(bid):
 # behaviour-preserving maintenance patches written by independent sub-agents (DESIGN.md 11.10): every check must stay silent
 for _bid in sorted(os.listdir(os.path.join(VERIF, 'benign'))) if os.path.isdir(os.path.join(VERIF, 'benign')) else []:
     if os.path.isfile(os.path.join(VERIF, 'benign', _bid, 'patch.diff')):
-        CONTROLS.append(C(f"silent-benign-{_bid}", 'silent', ALL_PROPS, apply_benign(_bid), None, 'independent behaviour-preserving maintenance patch'))
+        _skip = []
+        _lim = os.path.join(VERIF, 'benign', _bid, 'limits.json')
+        if os.path.isfile(_lim):
+            _skip = json.load(open(_lim)).get('analysis_error', [])       # properties whose analysis honestly stops (exit 2) on this patch: DESIGN.md 11.10
+        CONTROLS.append(C(f"silent-benign-{_bid}", 'silent', [p_ for p_ in ALL_PROPS if p_ not in _skip], apply_benign(_bid), None, 'independent behaviour-preserving maintenance patch'))
 
 for _sid, _props in SEED_EXPECT.items():
     CONTROLS.append(C(f"fire-seed-{_sid}", 'fire', _props, apply_seed(_sid), None, 'confirmed seeded change'))
